@@ -51,7 +51,22 @@ fn check_value(cx: &Cx, ti: usize, x: u64) -> Vec<(String, String)> {
             None => {
                 let is_unknown_src_name = cx.unknown_src.get(ty).map_or(false, |s| s.contains(&text));
                 if is_unknown_src_name {
-                    return None; // a constant this harness has no registry entry for: not judged
+                    // a constant added after this harness was written: judged against the further
+                    // IANA assignments if either its value or its name is known there
+                    let n = iana::norm_name(&text);
+                    let by_value = iana::EXTRA_ASSIGNMENTS.iter().find(|(t, v, _)| *t == ty && *v == x);
+                    let by_name = iana::EXTRA_ASSIGNMENTS.iter().find(|(t, _, nm)| *t == ty && iana::norm_name(nm) == n);
+                    if let Some((_, _, nm)) = by_value {
+                        if iana::norm_name(nm) != n {
+                            return Some((aspect.to_string(), format!("{} of {}({}) is {:?}, but IANA assigns that value to {}", aspect, ty, x, text, nm)));
+                        }
+                    }
+                    if let Some((_, v, _)) = by_name {
+                        if *v != x {
+                            return Some((aspect.to_string(), format!("{} of {}({}) is {:?}, but IANA assigns {} the value {}", aspect, ty, x, text, text, v)));
+                        }
+                    }
+                    return None; // otherwise not judged (reported in the evidence)
                 }
                 if known_names.contains(&text.as_str()) || !text.contains(&dec) {
                     return Some((
